@@ -49,6 +49,11 @@ type ZeroWidth struct {
 	Z int64        `json:"z"`
 }
 
+// LongKeys: map keys are strings too (length varints, interning, hashing)
+type LongKeys struct {
+	M map[string]int64 `json:"m"`
+}
+
 type hiddenOnly struct {
 	Skip int64 `json:"-"`
 	x    int64
@@ -81,6 +86,44 @@ func customProbes() []probeCase {
 	zt := reflect.TypeOf(ZeroWidth{})
 	out = append(out, probeCase{probe: univ.Probe{Name: "arrays of zero-width items", Expr: &univ.Expr{Op: "struct", Elem: &univ.Expr{Op: "zero-width-items"}}, Tag: `json:"f"`, Type: zt}, depth: 2, whole: true, newS: statics.NewFor[ZeroWidth](),
 		custom: []reflect.Value{mkZero(3, 0), mkZero(0, 9), mkZero(100, 2), mkZero(9, 100)}})
+	// a wide record (130 fields) and a map with one 70 000-byte key among 300 short ones
+	mkWide := func(variant int) reflect.Value {
+		v := reflect.New(reflect.TypeOf(Wide130{})).Elem()
+		for i := 0; i < v.NumField(); i++ {
+			if variant == 2 || (variant == 1 && i%2 == 0) {
+				continue // zero / nil
+			}
+			f := v.Field(i)
+			switch f.Kind() {
+			case reflect.Int64:
+				f.SetInt(int64(i*1000 + variant))
+			case reflect.String:
+				f.SetString(fmt.Sprintf("s%d-%d", i, variant))
+			case reflect.Slice:
+				f.SetBytes([]byte(fmt.Sprintf("b%d", i)))
+			case reflect.Ptr:
+				if f.Type().Elem().Kind() == reflect.Int64 {
+					x := int64(-i)
+					f.Set(reflect.ValueOf(&x))
+				} else {
+					x := fmt.Sprintf("p%d", i)
+					f.Set(reflect.ValueOf(&x))
+				}
+			}
+		}
+		return v
+	}
+	out = append(out, probeCase{probe: univ.Probe{Name: "record of 130 fields", Expr: &univ.Expr{Op: "struct", Elem: &univ.Expr{Op: "wide-record"}}, Tag: `json:"f"`, Type: reflect.TypeOf(Wide130{})}, depth: 2, whole: true, newS: statics.NewFor[Wide130](),
+		custom: []reflect.Value{mkWide(0), mkWide(1), mkWide(2)}})
+	mkKeys := func(long int) reflect.Value {
+		m := map[string]int64{string(bytes.Repeat([]byte("K"), long)): 1, "": 2}
+		for i := 0; i < 300; i++ {
+			m[fmt.Sprintf("k%03d", i)] = int64(i)
+		}
+		return reflect.ValueOf(LongKeys{M: m})
+	}
+	out = append(out, probeCase{probe: univ.Probe{Name: "map with very long and very many keys", Expr: &univ.Expr{Op: "struct", Elem: &univ.Expr{Op: "long-keys"}}, Tag: `json:"f"`, Type: reflect.TypeOf(LongKeys{})}, depth: 2, whole: true, newS: statics.NewFor[LongKeys](),
+		custom: []reflect.Value{mkKeys(70000), mkKeys(3)}})
 	// a record type with nothing to serialise: every row takes zero bytes, and must still be counted and written
 	et := reflect.TypeOf(struct{}{})
 	out = append(out, probeCase{probe: univ.Probe{Name: "record without fields (zero-byte rows)", Expr: &univ.Expr{Op: "struct", Elem: &univ.Expr{Op: "zero-byte-rows"}}, Tag: `json:"f"`, Type: et}, depth: 2, whole: true, newS: statics.NewFor[struct{}](),
@@ -800,7 +843,7 @@ func rule(tier string, what string) string {
 	if tier == "thorough" {
 		d = "depth<=1 statically (320 generated types through the real generic Encoder[T]) and dynamically; depth 2 (256 expressions × 4 tags) and depth 3 (1024 expressions) dynamically"
 	}
-	return "probe struct types struct{c0; F τ `tag`; c1; c2} with canary fields, τ over 16 leaves {bool,int,int16,int32,int64,float32,float64,string,[]byte,time.Time,null.Int/Bool/Float/String/Time,Rec} and wrappers {*τ,[]τ,map[string]τ,struct{X τ}}: " + d + "; per type: every value sequence of length<=2 over the full value alphabet, every length-3 sequence over 3 representatives × {null,deflate,snappy} × block size {0,1,size of two records,65536} × every subset of flush positions, reader rotating over {full reads, 1-byte reads, data+EOF, *bytes.Buffer, 16-byte *bufio.Reader, every other Read returning (0,nil)}; every length-3 sequence again with a flush after each record where the writer refuses the first write of one of the flushes once (nothing consumed) and the flush is retried; 66 multi-field record types (every arrangement of six *int64 / *string fields, and two mixed ones with slices, maps and nested pointers) with 4 value patterns in sequences of <=3 (allocation order inside one record); a record type that takes 40–70 pointed-to values of one type from its bank, and one with arrays of up to 100 zero-width items (records without serialisable fields); for the string and []byte leaves also records of 66–70 kB a 400-record block of >64 KiB (larger than the reader's read-ahead chunk) and a block of 9000 identical records (best-case compression ratio) under every codec; the file is read into T, into a fresh *T, and into a caller-owned *T already used by an earlier read that its callback abandoned at the last record; every record is compared twice: as deep-copied inside the callback, and as a plain struct copy kept by the caller until ReadFile has returned (banks left open); " + what + "; plus FileWriter used directly for 1–3 files at once (headers through WriteHeader or AppendHeader in every combination, 0–4 single-row blocks dealt round-robin), each file parsed on its own; a case is one (type, sequence, configuration); non-trivial = encoding succeeded and the output reached the oracle"
+	return "probe struct types struct{c0; F τ `tag`; c1; c2} with canary fields, τ over 16 leaves {bool,int,int16,int32,int64,float32,float64,string,[]byte,time.Time,null.Int/Bool/Float/String/Time,Rec} and wrappers {*τ,[]τ,map[string]τ,struct{X τ}}: " + d + "; per type: every value sequence of length<=2 over the full value alphabet, every length-3 sequence over 3 representatives × {null,deflate,snappy} × block size {0,1,size of two records,65536} × every subset of flush positions, reader rotating over {full reads, 1-byte reads, data+EOF, *bytes.Buffer, 16-byte *bufio.Reader, every other Read returning (0,nil)}; every length-3 sequence again with a flush after each record where the writer refuses the first write of one of the flushes once (nothing consumed) and the flush is retried; 66 multi-field record types (every arrangement of six *int64 / *string fields, and two mixed ones with slices, maps and nested pointers) with 4 value patterns in sequences of <=3 (allocation order inside one record); a record of 130 fields, a map with a 70 000-byte key among 300 others, a record type that takes 40–70 pointed-to values of one type from its bank, and one with arrays of up to 100 zero-width items (records without serialisable fields); for the string and []byte leaves also records of 66–70 kB a 400-record block of >64 KiB (larger than the reader's read-ahead chunk) and a block of 9000 identical records (best-case compression ratio) under every codec; the file is read into T, into a fresh *T, and into a caller-owned *T already used by an earlier read that its callback abandoned at the last record; every record is compared twice: as deep-copied inside the callback, and as a plain struct copy kept by the caller until ReadFile has returned (banks left open); " + what + "; plus FileWriter used directly for 1–3 files at once (headers through WriteHeader or AppendHeader in every combination, 0–4 single-row blocks dealt round-robin), each file parsed on its own; a case is one (type, sequence, configuration); non-trivial = encoding succeeded and the output reached the oracle"
 }
 
 func register(id string, w which, level, what string, assumptions []string) {
